@@ -52,6 +52,21 @@ def sub_directory(rng, nbasis):
             src = os.path.join(store.DATA, extra)
             if os.path.isfile(src) and not os.path.exists(os.path.join(tmp, extra)):
                 os.symlink(src, os.path.join(tmp, extra))
+    # further versions (2 and 4) of one basis: the same table under another version number.  File extensions that contain
+    # a digit (.d2k, .c4bas) meet a version with that digit only here
+    import copy
+    for k in ('sto-3g', ):
+        if k in index:
+            e = copy.deepcopy(index[k])
+            v1 = e['versions'][e['latest_version']]
+            for nv in ('2', '4'):
+                rel = os.path.join(e['relpath'], '%s.%s.table.json' % (e['basename'], nv))
+                if not os.path.exists(os.path.join(tmp, rel)):
+                    os.symlink(os.path.join(store.DATA, v1['file_relpath']), os.path.join(tmp, rel))
+                e['versions'][nv] = dict(v1, file_relpath=rel)
+            e['latest_version'] = '4'
+            for k2 in [k2 for k2, e2 in index.items() if e2['basename'] == e['basename'] and e2['relpath'] == e['relpath']]:
+                index[k2] = dict(e, display_name=index[k2]['display_name'], other_names=index[k2]['other_names'])
     with open(os.path.join(tmp, 'METADATA.json'), 'w') as f:
         json.dump(index, f)
     os.symlink(os.path.join(store.DATA, 'REFERENCES.json'), os.path.join(tmp, 'REFERENCES.json'))
@@ -147,6 +162,7 @@ def work(ctx, seed):
         reffmts = list(refconverters.get_reference_formats())
         picks = [(rng.choice(fmts), rng.choice(reffmts), rng.choice(['zip', 'tbz'])) for _ in range(3 if not ctx.thorough() else 10)]
         picks.append(('molcas_library', 'ris', 'zip') if seed % 3 == 0 else ('veloxchem', 'bib', 'tbz') if seed % 3 == 1 else ('fhiaims', 'txt', 'zip'))
+        picks.append(('demon2k', 'json', 'tbz') if seed % 2 == 0 else ('cfour', 'endnote', 'zip'))     # extensions containing a digit
         for fmt, reffmt, atype in picks:
             check_bundle(ctx, d, index, fmt, reffmt, atype, 'store-sample:%d' % seed)
     finally:
